@@ -104,6 +104,7 @@ func init() {
 		Explain: "Decides the rejection clause and the wiring of coordinate addressing: (S1) every non-error iteration path of Ltoi's coordinate loop has established coord >= 0 and coord < size, and the scalar branch accepts only 0; (S2) in At/SetAt/MaskAt/SetMaskAt every path to Get/Set/mask[...] has passed the arity check and the error check of the offset computation and uses exactly that offset, at() is Ltoi over the tensor's own Shape() and Strides(), maskAt() is at(); (K3/K1arms) the typed Get/Set/Memset arms of array and storage.Header use only accessors and assertions of their own label type and agree with their sibling arms; (S8) stride-routine selection by data order. " +
 			"Not decided: that CalcStrides* compute the right products and that Ltoi's sum is the rank in data order (value arithmetic); behaviour of the column-major converting constructor.",
 		Run: func(rc *rules.RC) {
+			rules.S19(rc)
 			rules.K1w(rc, func(stem string) bool { return strings.Contains(stem, "denseTranspose") }, 4)
 			rules.T7(rc)
 			rules.SV(rc, 20)
@@ -183,6 +184,7 @@ func init() {
 		Explain: "Decides consistency of the iterator family, not its arithmetic: (I1) NextValidity reports !mask[i], NextValid stops on unmasked and NextInvalid on masked elements, in FlatMaskedIterator and MultIterator; (I2) NextValid and NextInvalid of one type are identical up to exactly that polarity; (I3) every path through FlatIterator.Reset rewrites every field the stepping functions mutate (done, nextIndex, track); (I4) the vector fast path addresses track/shape/strides through veclikeDim, which is the first axis of length != 1, and no vector arm uses a literal axis; (I5) the multi-iterator's stride-block key is the digest of all stride elements; (I6) colMajorNDNext is ndNext with loop direction and done-axis reversed. " +
 			"Not decided - and this is the core of the property: that the odometer yields offsets in row-major coordinate order, the skip counts, coordinate tracking values.",
 		Run: func(rc *rules.RC) {
+			rules.I9(rc)
 			rules.I8(rc)
 			rules.I7(rc)
 			rules.I12(rc)
@@ -281,6 +283,7 @@ func init() {
 		Explain: "Decides: (LB) on every path to a BLAS call in MatMul/MatVecMul/Outer the lazy-transpose state and data order of each operand were branched on (a flag taken from the wrong operand, or a merged test, is reported); (L1) whether the operands' need for an iterator was consulted at all (it is not: known finding 15); (K1arms/K3) the float32/float64/complex64/complex128 arms call the same routine with the same argument pattern and the right precision letter; (O3/O7/O8) axes arguments are not mutated, only function-local tensors are recycled (handleIncr guard), scratch access patterns are not aliases of an operand's. " +
 			"(LD) on every feasible path of MatVecMul, MatMul, Outer and Inner each argument of the gemv/gemm/ger/dot call - transposition flags, dimensions, leading dimensions, buffers, operand order - is the one the operand's data order, lazy-transpose state and logical shape require under the row-major BLAS convention (term propagation along the path against a derived reference; 41 layout cases); (P2) the gateways and their callers do not write their operands (Dot and Outer do: known findings 13, 14). Not decided: the routines themselves (trusted by name), the reshape/permutation arithmetic of TensorMul/Contract, Dot's dispatch table beyond delegation, rounding.",
 		Run: func(rc *rules.RC) {
+			rules.LD2(rc)
 			rules.O8(rc)
 			rules.RP(rc, nil, 0)
 			rules.LGuards(rc, "C09")
@@ -368,6 +371,7 @@ func init() {
 		Explain: "Decides: (L0) IsColMajor/IsRowMajor/HasSameOrder are what they claim and prepDataVV/VS/SV/Unary iterate whenever two participants disagree on data order; (L3) raw two-tensor accesses (Copy, Float32/64Engine.Add) and row-major-only kernels (ReduceFirst/ReduceLast) are conditioned on the data order; (L4) exporters into row-major formats consult it; (LB) BLAS gateways derive leading dimensions from each operand's order; (LD) every argument of every BLAS call is the one the operands' and the result's data order and lazy-transpose state require (all 32 layout cases of MatMul, 4 of MatVecMul, Outer, Inner); (T4) stride routines are selected by order in calcStrides and Transpose; (S10) the two stride calculators are one recurrence run in opposite directions; (S11) whoever flips the column-major bit recomputes the strides; (S12) AP.S picks the outermost axis by data order and marks column-major slices non-contiguous; (K3/K1arms) the typed arms of the BLAS gateways agree with each other (an operand swap in one precision is reported); (LC/LF) new raw copies / flat element loops must be layout-guarded and (LF) order-aware. Several of these fail on the pinned tree and are listed as known findings (17-19, 21, 40, 41). " +
 			"Not decided: block-size arithmetic of stack/concat under column-major (seed R2C16b is not caught); StackDense order agreement.",
 		Run: func(rc *rules.RC) {
+			rules.S19(rc)
 			rules.T8(rc)
 			rules.SS(rc)
 			rules.WC(rc, 15)
